@@ -111,6 +111,13 @@ func (e *Env) lookupIdent(name string) Value {
 		return v
 	}
 	if e.F != nil {
+		if _, ok := e.F.Vars[name]; !ok {
+			if al := e.S.X.Aliases[e.F.Fn]; al != nil {
+				if nn, ok := al[name]; ok {
+					name = nn
+				}
+			}
+		}
 		if v, ok := e.F.Vars[name]; ok {
 			if e.F.VarAddr[name] {
 				return e.S.Load(v.(*PtrVal))
